@@ -282,7 +282,9 @@ def judge(chk, job, res, docs_res, st):
             good, why, cls = False, f"rejects it: {str(ex)[:200]!r}", "undecodable"
         if good:
             st["decoded"] += 1
-        elif got == want:
+        elif got == want and kind != "ys":
+            # (for a YAML stream the expected text is assembled from the implementation's own documents:
+            #  a stream that does not read back as the items is a fault of those documents, reported below)
             raise vlib.ToolError(f"Encode2: the specification's own text {want!r} for `{case['src'][:200]}` is inside "
                                  f"the decided domain but the {kind} reader {why}")
         else:
